@@ -15,4 +15,5 @@ let lookup (p : string) : Model.sexp -> Model.sexp =
   | "c13" -> Model.run_c13
   | "c20" -> Model.run_c20
   | "c07" -> Model.run_c07
+  | "c16" -> Model.run_c16
   | _ -> failwith ("unknown property " ^ p)
